@@ -1,8 +1,40 @@
 PROP = dict(
     harness="c05", level="exploration",
-    quick=dict(cases=3200, max_size=60, workers=16),
-    thorough=dict(cases=150000, max_size=120, workers=16),
-    rule="TBD",
-    assumptions=[],
+    quick=dict(cases=12000, max_size=60, workers=16),
+    thorough=dict(cases=240000, max_size=100, workers=16, timeout=3000),
+    rule=("a case is one Compiler program (decoded from integers into a tree of straight-line ops / diamonds / counted loops / "
+          "two-entry cycles / annotated jump tables / early returns over 1..200 GP values of 32/64 bits, 0..40 xmm values, 0..10 mask "
+          "values, 0..4 stack slots, local/global constants, 0..11 scalar arguments in registers and on the stack, 0..200 extra pressure "
+          "values); it is compiled by x86::Compiler for x86-64, executed on 32 generated inputs through the host-execution trampoline and "
+          "compared with the harness' reference interpreter (return value, full scratch-buffer image, call log), compiled a second time "
+          "without the pressure values (metamorphic), and compiled for x86-32 and (mapped to an a64 vocabulary) AArch64 with structural "
+          "post-RA checks. Non-trivial: the allocator inserted >= 1 load/save/move/swap or reg->mem operand substitution (counted from the "
+          "post-RA node list) or the program has a call, a jump table or a fixed-register instruction; distinct = distinct case text. "
+          "Before the generated cases every worker runs its share of a deterministic enumeration: every op kind alone (60/400 field "
+          "variants, no pressure: interpreter-vs-CPU self-test) and every (outer construct, inner construct) pair at pressures "
+          "3/12/15/18/40 in SSE/AVX/AVX-512 mode."),
+    assumptions=[
+        "ASan+UBSan build with ASMJIT_ASSERT active; an ASMJIT_ASSERT abort inside the compiler is caught (SIGABRT + sigsetjmp) and reported as asmjit-assert:<arch>:<file>:<line>",
+        "x86-64 code is executed on the host CPU (AVX-512 available) via hostexec/msc_run: private stack with guard pages, every register not used for arguments poisoned, faults are failures (compiled-code-faulted), callee-saved registers and rsp checked",
+        "AArch64 and x86-32 code is NOT executed: only finalize() == kOk for programs whose x86-64 build compiled, no virtual register left after RA, ld1-ld4/st1-st4/tbl/tbx list operands consecutive modulo 32; the a64 programs are a structural mapping of the same tree (semantics not preserved)",
+        "the reference interpreter models flags only where a cmp/test/bt is generated together with its setcc/cmovcc/jcc; every op kind is cross-checked against the CPU by the enumeration self-test",
+        "32-bit arguments are passed with garbage upper halves (the ABI leaves them undefined); callees are C functions that log their arguments and return a hash of them",
+        "a failing case is re-decoded with one known trigger shape excluded at a time; if the failure disappears the key is miscompiled:<shape>. Shapes whose key is a listed known finding are excluded by construction (known_hits counts the exclusions), so one known defect does not mask the rest of the program space",
+        "vector values are 128-bit only (xmm, incl. xmm16-31 and {k} merging in AVX-512 mode); ymm/zmm virtual registers, x87/MMX, AH-DH operands, rep-prefixed and x86 register-block/mask-pair instructions (Knights Mill / Tiger Lake only) are not generated",
+    ],
 )
-META = dict(engine="rapidcheck", technique="TBD", level_text="TBD", level_note="", design_ref="DESIGN.md section 4, C05")
+META = dict(
+    engine="rapidcheck + deterministic enumeration + host CPU execution (hostexec)",
+    technique=("property-based differential testing: generated structured Compiler programs are executed natively after register allocation "
+               "and compared with a reference interpreter over unbounded virtual registers; metamorphic re-compilation without pressure; "
+               "structural post-RA checks for the targets that cannot execute here"),
+    level_text=("Exploration: thousands (quick) to hundreds of thousands (thorough) of generated and enumerated programs, each run on 32 inputs. "
+                "Agreement of return value, memory image and call log with the interpreter is checked for x86-64 only; x86-32 and AArch64 are "
+                "checked for successful allocation and structural validity of the allocated code. Not a proof: absence of failures in the "
+                "explored programs, minus the listed known findings whose trigger shapes are excluded."),
+    level_note=("Trusts the harness interpreter (~250 lines, cross-checked op by op against the CPU at the start of every run), the host CPU and "
+                "hostexec/msc. Thirteen genuine defects found while building it are listed as known findings; their trigger shapes are removed from "
+                "the generated programs, which reduces coverage of exactly those shapes (32-bit read-write views of 64-bit registers under spilling, "
+                "cmpxchg, and r,0, or [mem],-1, 8/16-bit xor r,r, bt with register offset, kmovw r32,k, empty jump-table cases, a64 list loads under pressure)."),
+    design_ref="DESIGN.md section 4, C05; section 7 rows 11 and 14",
+)
